@@ -802,6 +802,39 @@ func R41() Rule {
 				}
 			}
 		}
+		// compose reads its sources inside the destination's critical section: the destination may be one
+		// of the sources (the append idiom dest ← dest + piece), and two such composes that both read the
+		// old destination outside the lock lose one update
+		if h := P.Func(core.PkgGcsemu, "(*GcsEmu).handleGcsCompose"); h != nil && h.Blocks != nil {
+			hscope := P.Scope(h, func(f *ssa.Function) bool { return core.PkgPathOf(f) != core.PkgGcsemu })
+			hset := setOf(hscope)
+			j := 0
+			for _, ci := range core.CallsIn(hscope, func(ci *core.CallInfo) bool { return isStoreCall(ci, "Get") }) {
+				j++
+				var insideSection func(f *ssa.Function, depth int) bool
+				insideSection = func(f *ssa.Function, depth int) bool {
+					if sec, _ := sectionOfClosure(P, f); sec != nil {
+						return true
+					}
+					if f == h || depth > 4 {
+						return false
+					}
+					nRef := 0
+					for _, r := range P.Refs(f) {
+						if !hset[r.Instr.Parent()] {
+							continue
+						}
+						nRef++
+						if r.Kind != core.RefCall || !insideSection(r.Instr.Parent(), depth+1) {
+							return false
+						}
+					}
+					return nRef > 0
+				}
+				inside := insideSection(ci.Instr.Parent(), 0)
+				c.Check(inside, "R41", fmt.Sprintf("(*GcsEmu).handleGcsCompose/Store.Get#%d/source-read-inside-the-destination-lock", j), ci.Instr.Pos(), "the compose sources are read inside the destination's critical section", "compose reads its source objects before taking the destination's lock: when the destination is itself a source (append), two concurrent composes both read the old content and one update is lost")
+			}
+		}
 		if n < 3 {
 			c.Unknown("R41", "floor/calls", token.NoPos, "only %d store calls found inside critical sections", n)
 		}
